@@ -1,13 +1,21 @@
-(* RunAll.v — top-level dispatcher over all command families. *)
+(* RunAll.v — top-level dispatcher over all command families.
+   To add a family: define  run_xxx : string -> list sexp -> option sexp  in your own file,
+   Require it here and append it to `dispatchers`. *)
 From Coq Require Import String.
 From Cedar Require Export Run.
 
+Definition dispatchers : list (string -> list sexp -> option sexp) :=
+  [ run_core
+  ].
+
+Fixpoint dispatch (ds : list (string -> list sexp -> option sexp)) (cmd : string) (args : list sexp) : sexp :=
+  match ds with
+  | [] => SY "unknown_command"
+  | d :: ds' => match d cmd args with Some r => r | None => dispatch ds' cmd args end
+  end.
+
 Definition run (s : sexp) : sexp :=
   match s with
-  | SL (SY cmd :: args) =>
-      match run_core cmd args with
-      | Some r => r
-      | None => SY "unknown_command"
-      end
+  | SL (SY cmd :: args) => dispatch dispatchers cmd args
   | _ => bad_input
   end.
